@@ -123,10 +123,6 @@ package secretstore
 //@   for C02, C10
 //@   ensures [C02.key.cid] result.string == k_cid(id.str)
 
-//@ extern berty.tech/weshnet/v2/pkg/cryptoutil.KeySliceToArray(keySlice) (arr, err)
-//@   ensures err == nil ==> arr != nil && fresh(arr) && len(keySlice) == 32 && bytes(arr) == bytes(keySlice)
-//@   ensures len(keySlice) != 32 ==> err != nil
-
 //@ # ----- chain key record: dsv[k_ck(g,d)] == enc_dck(chain key value, counter) -----
 //@ func (*secretStore).getDeviceChainKeyForGroupAndDevice
 //@   for C02, C09, C10
@@ -163,6 +159,7 @@ package secretstore
 //@   requires s != nil ==> s.datastore != nil
 //@   ensures [C02.get.cid] ret1 == nil ==> s != nil && ret0 != nil && msgCID.str != bempty && bytes(ret0) == dsv(s.datastore)[k_cid(msgCID.str)] && blen(bytes(ret0)) == 32
 //@   ensures [C02.get.cid.present] ret1 == nil ==> dsh(s.datastore)[k_cid(msgCID.str)]
+//@   ensures [C14.get.cid.found] s != nil && msgCID.str != bempty && dsh(s.datastore)[k_cid(msgCID.str)] && blen(dsv(s.datastore)[k_cid(msgCID.str)]) == 32 ==> ret1 == nil
 
 //@ func (*secretStore).putKeyForCID
 //@   for C02, C10
@@ -195,6 +192,8 @@ package secretstore
 //@   ensures [C02.putkeys.nonbatched] ret0 == nil ==> (forall i {preComputedMessageKeys[i]} :: 0 <= i && i < len(preComputedMessageKeys) ==>
 //@        dsh(s.datastore)[prekey(bytes(groupRaw), bytes(deviceRaw), preComputedMessageKeys, i)]
 //@        && dsv(s.datastore)[prekey(bytes(groupRaw), bytes(deviceRaw), preComputedMessageKeys, i)] == bytes(preComputedMessageKeys[i].messageKey))
+//@   ensures [C14.putkeys.monotone] forall k Bytes {dsh(s.datastore)[k]} :: old(dsh(s.datastore))[k] ==> dsh(s.datastore)[k]
+//@   loop 0 invariant forall k Bytes {dsh(s.datastore)[k]} :: old(dsh(s.datastore))[k] ==> dsh(s.datastore)[k]
 //@   ensures [C02.putkeys.nonbatched.frame] forall k Bytes {dsh(s.datastore)[k]} ::
 //@        (forall i {preComputedMessageKeys[i]} :: 0 <= i && i < len(preComputedMessageKeys) ==> k != prekey(bytes(groupRaw), bytes(deviceRaw), preComputedMessageKeys, i))
 //@        ==> dsh(s.datastore)[k] == old(dsh(s.datastore))[k] && dsv(s.datastore)[k] == old(dsv(s.datastore))[k]
@@ -218,6 +217,7 @@ package secretstore
 //@   ensures [C02.putkeys.batched.frame] forall k Bytes {dsh(s.datastore)[k]} ::
 //@        (forall i {preComputedMessageKeys[i]} :: 0 <= i && i < len(preComputedMessageKeys) ==> k != prekey(bytes(groupRaw), bytes(deviceRaw), preComputedMessageKeys, i))
 //@        ==> dsh(s.datastore)[k] == old(dsh(s.datastore))[k] && dsv(s.datastore)[k] == old(dsv(s.datastore))[k]
+//@   ensures [C14.putkeys.monotone] forall k Bytes {dsh(s.datastore)[k]} :: old(dsh(s.datastore))[k] ==> dsh(s.datastore)[k]
 //@   ensures [C02.putkeys.batched.atomic] ret0 != nil ==> dsh(s.datastore) == old(dsh(s.datastore)) && dsv(s.datastore) == old(dsv(s.datastore))
 //@   loop 0 invariant -1 <= rangeindex && (rangeindex < len(preComputedMessageKeys) || len(preComputedMessageKeys) == 0 && rangeindex == -1)
 //@   loop 0 invariant dsh(s.datastore) == old(dsh(s.datastore)) && dsv(s.datastore) == old(dsv(s.datastore)) && bds(batch) == s.datastore
@@ -237,6 +237,7 @@ package secretstore
 //@   ensures [C02.putkeys] ret0 == nil ==> s != nil && (forall i {preComputedMessageKeys[i]} :: 0 <= i && i < len(preComputedMessageKeys) ==>
 //@        dsh(s.datastore)[prekey(pkv(groupPublicKey), pkv(devicePublicKey), preComputedMessageKeys, i)]
 //@        && dsv(s.datastore)[prekey(pkv(groupPublicKey), pkv(devicePublicKey), preComputedMessageKeys, i)] == bytes(preComputedMessageKeys[i].messageKey))
+//@   ensures [C14.putkeys.monotone] s != nil ==> (forall k Bytes {dsh(s.datastore)[k]} :: old(dsh(s.datastore))[k] ==> dsh(s.datastore)[k])
 //@   ensures [C02.putkeys.frame] s != nil ==> (forall k Bytes {dsh(s.datastore)[k]} ::
 //@        (forall i {preComputedMessageKeys[i]} :: 0 <= i && i < len(preComputedMessageKeys) ==> k != prekey(pkv(groupPublicKey), pkv(devicePublicKey), preComputedMessageKeys, i))
 //@        ==> dsh(s.datastore)[k] == old(dsh(s.datastore))[k] && dsv(s.datastore)[k] == old(dsv(s.datastore))[k])
@@ -282,6 +283,7 @@ package secretstore
 //@        dsh(s.datastore)[k_pre(pkv(groupPublicKey), pkv(devicePublicKey), (old(ckctr(s, pkv(groupPublicKey), pkv(devicePublicKey))) + 1) % 18446744073709551616)]
 //@     && dsv(s.datastore)[k_pre(pkv(groupPublicKey), pkv(devicePublicKey), (old(ckctr(s, pkv(groupPublicKey), pkv(devicePublicKey))) + 1) % 18446744073709551616)]
 //@          == kdf_mk(old(ckval(s, pkv(groupPublicKey), pkv(devicePublicKey))), bempty, pkv(groupPublicKey))
+//@   ensures [C14.next.monotone] s != nil ==> (forall k Bytes {dsh(s.datastore)[k]} :: old(dsh(s.datastore))[k] ==> dsh(s.datastore)[k])
 //@   ensures [C02.next.frame] s != nil && devicePublicKey != nil ==> (forall k Bytes {dsh(s.datastore)[k]} ::
 //@        k != k_pre(pkv(groupPublicKey), pkv(devicePublicKey), (old(ckctr(s, pkv(groupPublicKey), pkv(devicePublicKey))) + 1) % 18446744073709551616)
 //@        ==> dsh(s.datastore)[k] == old(dsh(s.datastore))[k] && dsv(s.datastore)[k] == old(dsv(s.datastore))[k])
@@ -356,10 +358,6 @@ package secretstore
 //@     && bytes(ret1.Sig) == hdr_sig(sbox_msg(env_hdr(bytes(data)), env_nonce(bytes(data)), secret32(bytes(g.Secret))))
 //@     && bytes(ret0.Message) == env_msg(bytes(data))
 //@   ensures [C01.headers.reject] !sbox_ok(env_hdr(bytes(data)), env_nonce(bytes(data)), secret32(bytes(g.Secret))) ==> ret2 != nil
-
-//@ extern berty.tech/weshnet/v2/pkg/cryptoutil.NonceSliceToArray(nonceSlice) (arr, err)
-//@   ensures err == nil ==> arr != nil && fresh(arr) && len(nonceSlice) == 24 && bytes(arr) == bytes(nonceSlice)
-//@   ensures len(nonceSlice) != 24 ==> err != nil
 
 //@ func (*secretStore).openPayload
 //@   for C01, C02
@@ -827,3 +825,33 @@ package secretstore
 //@   modifies ksh(s.deviceKeystore.keystore), ksk(s.deviceKeystore.keystore), lockstate(addr(s.deviceKeystore.mu))
 //@   ensures [C11.api.memberdevice] ret1 == nil && g.GroupType == 3 ==> ksh(s.deviceKeystore.keystore)["accountProofSK"]
 //@        && skv(as(ret0, "*ownMemberDevice").member) == cgkey(skv(ksk(s.deviceKeystore.keystore)["accountProofSK"]), bytes(g.PublicKey))
+
+//@ # ======================= C14 / C01: out-of-store (push) messages =======================
+//@ # the key a push payload is opened with: the key stored for its (sender-chosen) CID when there is one, else the
+//@ # precomputed key of (group, claimed device, claimed counter)
+//@ pred oosCidKnown(s, envelope) = len(envelope.Cid) > 0 && old(dsh(s.datastore))[k_cid(cidparse(bytes(envelope.Cid)))]
+//@ func (*secretStore).OutOfStoreMessageOpen
+//@   for C01, C14
+//@   safety
+//@   requires s != nil ==> s.datastore != nil && s.logger != nil && unlocked(addr(s.messageMutex))
+//@   requires cid.Undef.str == bempty
+//@   # store invariant: keys recorded by CID are 32 bytes long (only putKeyForCID writes them)
+//@   requires s != nil ==> (forall c Bytes {k_cid(c)} :: dsh(s.datastore)[k_cid(c)] ==> blen(dsv(s.datastore)[k_cid(c)]) == 32)
+//@   modifies dsv(s.datastore), dsh(s.datastore), lockstate(addr(s.messageMutex))
+//@   ensures [C14.oos.unlock] s != nil ==> unlocked(addr(s.messageMutex))
+//@   # whatever key opened it, the payload is delivered only if the claimed device signed it (the CID of a push
+//@   # payload is chosen by its sender, so a key found by CID proves nothing about the sender)
+//@   ensures [C14.oos.authentic] ret2 == nil ==> envelope != nil && len(envelope.DevicePk) == 32 && verify(bytes(envelope.DevicePk), bytes(ret0), bytes(envelope.Sig))
+//@   ensures [C14.oos.clear.cid] ret2 == nil && oosCidKnown(s, envelope) ==>
+//@        sbox_ok(bytes(envelope.EncryptedPayload), nonce_of(envelope.Counter), old(dsv(s.datastore))[k_cid(cidparse(bytes(envelope.Cid)))])
+//@     && bytes(ret0) == sbox_msg(bytes(envelope.EncryptedPayload), nonce_of(envelope.Counter), old(dsv(s.datastore))[k_cid(cidparse(bytes(envelope.Cid)))])
+//@   ensures [C14.oos.clear.precomputed] ret2 == nil && !oosCidKnown(s, envelope) ==> groupPublicKey != nil
+//@     && old(dsh(s.datastore))[k_pre(pkv(groupPublicKey), bytes(envelope.DevicePk), envelope.Counter)]
+//@     && sbox_ok(bytes(envelope.EncryptedPayload), nonce_of(envelope.Counter), old(dsv(s.datastore))[k_pre(pkv(groupPublicKey), bytes(envelope.DevicePk), envelope.Counter)])
+//@     && bytes(ret0) == sbox_msg(bytes(envelope.EncryptedPayload), nonce_of(envelope.Counter), old(dsv(s.datastore))[k_pre(pkv(groupPublicKey), bytes(envelope.DevicePk), envelope.Counter)])
+//@   # truthful report: "newly decrypted" exactly when no key was stored for the CID (not yet received through the log)
+//@   ensures [C14.oos.already] ret2 == nil ==> (ret1 <==> !oosCidKnown(s, envelope))
+//@   # opening a push payload consumes nothing: every key present before is still present, and only the next
+//@   # precomputed key of the sender (one past its stored chain-key counter) may have been (re)written
+//@   ensures [C14.oos.nonconsuming] s != nil && envelope != nil && groupPublicKey != nil ==> (forall k Bytes {dsh(s.datastore)[k]} :: old(dsh(s.datastore))[k] ==> dsh(s.datastore)[k]
+//@        && (k != k_pre(pkv(groupPublicKey), bytes(envelope.DevicePk), (old(ckctr(s, pkv(groupPublicKey), bytes(envelope.DevicePk))) + 1) % 18446744073709551616) ==> dsv(s.datastore)[k] == old(dsv(s.datastore))[k]))
